@@ -48,22 +48,22 @@ type ObserveRec struct {
 }
 
 type Exec struct {
-	Observes []ObserveRec
-	ts      *TS
-	prog    *ssa.Program
-	B       Bounds
-	nobj    int
-	Assumes []*Term
-	Obls    []Obligation
-	Nondets []NondetRec
-	loops   map[*ssa.Function]*LoopInfo
-	active  map[*ssa.Function]int
-	globals map[*ssa.Global]*Object
-	stubs   map[string]*ssa.Function
-	fnStats map[string]int // function name -> #SSA instructions executed symbolically (static count)
-	Native  *NativeEnv
-	Conc    *ConcEnv
-	steps   int
+	Observes    []ObserveRec
+	ts          *TS
+	prog        *ssa.Program
+	B           Bounds
+	nobj        int
+	Assumes     []*Term
+	Obls        []Obligation
+	Nondets     []NondetRec
+	loops       map[*ssa.Function]*LoopInfo
+	active      map[*ssa.Function]int
+	globals     map[*ssa.Global]*Object
+	stubs       map[string]*ssa.Function
+	fnStats     map[string]int // function name -> #SSA instructions executed symbolically (static count)
+	Native      *NativeEnv
+	Conc        *ConcEnv
+	steps       int
 	optOverride map[string]string
 	AbstractMul bool
 	pool        *Pool
